@@ -3300,6 +3300,19 @@ func (s *Translator) buildExpansionProjectionConstraints(traversalStepContext Tr
 		)
 	}
 
+	// The recursive term stops at the maximum depth, but the primer emits the first hop unconditionally: a range
+	// that ends at zero (*0, *0..0) admits the zero-length match only.
+	if expansionModel.Options.MaxDepth.Set && expansionModel.Options.MaxDepth.Value < 1 {
+		projectionConstraints = pgsql.OptionalAnd(
+			pgsql.NewBinaryExpression(
+				pgsql.CompoundIdentifier{expansionModel.Frame.Binding.Identifier, expansionDepth},
+				pgsql.OperatorLessThanOrEqualTo,
+				pgsql.NewLiteral(expansionModel.Options.MaxDepth.Value, pgsql.Int),
+			),
+			projectionConstraints,
+		)
+	}
+
 	// Exclude expansion paths that reuse a relationship consumed by a preceding fixed step.
 	if expansionModel.PreviousRelationshipUniqueness != nil {
 		projectionConstraints = pgsql.OptionalAnd(projectionConstraints, expansionModel.PreviousRelationshipUniqueness)
